@@ -3,6 +3,7 @@ from __future__ import annotations
 
 from typing import Any, Dict, Optional
 
+import common
 import solver_property as SP
 from common import Ctx
 
@@ -115,6 +116,7 @@ def input_name_cases(ctx: Ctx):
                 ann = sorted(solverlib.parse_explanation(s)[0] for n in results.visit_nodes(roots) if n.metadata is not None and not n.metadata.meta
                              for s in D.build_explanation(n))
             except Exception as ex:  # noqa: BLE001
+                common.reraise_harness_fault(ex)     # the in-memory repository is the harness's
                 name, ann = "EXC " + type(ex).__name__, []
             out.append((sp, name, ann))
     finally:
